@@ -6,7 +6,7 @@
    address-space, allocator and environment perturbation is observed by the harness, not proved. *)
 From LedgerV Require Import Base.Prelude Base.Round Model.Amount Model.Xact Model.Journal
   Proofs.AmountProofs Proofs.XactProofs Proofs.JournalProofs Proofs.OrderProofs Proofs.CompareProofs
-  Gen.OrderSites Proofs.OrderSitesProofs.
+  Gen.OrderSites Proofs.OrderSitesProofs Gen.SourceGuards.
 From Coq Require Import Permutation.
 Local Open Scope Q_scope.
 
@@ -64,9 +64,9 @@ Proof. exact aeval_addsub_order_free. Qed.
 Print Assumptions expression_value_order_free.
 
 (* ordering of a multi-commodity balance against a plain number (or integer): a value, never an error, and the same
-   value for every iteration order of the hash table.  (Against a commoditized amount the loop may meet a component
-   of another commodity - an error - before or after the component that decides: that case is order dependent in
-   the code and is kept out of the generators; see c03.py) *)
+   value for every iteration order of the hash table (no hypothesis on the keys is needed here: every entry is
+   comparable with a plain number, so the walk is an all-test).  Against a commoditized amount see
+   balance_ordering_against_commoditized_amount_order_free below. *)
 Theorem balance_ordering_against_plain_number_order_free : forall w b b',
   plain_scalar w -> Permutation b b' -> v_ltb (VBal b) w = v_ltb (VBal b') w.
 Proof. exact v_ltb_balance_plain_perm. Qed.
@@ -118,10 +118,70 @@ Example unique_match_example :
   find (Z.eqb 2) [1; 2; 3]%Z = find (Z.eqb 2) [3; 2; 1]%Z.
 Proof. reflexivity. Qed.
 
-(* BALANCE < commoditized amount (value.cc is_less_than / is_greater_than, class OTAllPlainOnly): the full statement
-   "the same answer for every order of the table" fails in the faithful model - `(1 EUR + 2 USD) < 1 EUR` is `false`
-   when EUR is met first and the error "different commodities" when USD is *)
-Theorem balance_ordering_against_commoditized_amount_order_free_refuted :
-  exists b b' w, Permutation b b' /\ v_ltb (VBal b) w <> v_ltb (VBal b') w.
-Proof. exact v_ltb_balance_commoditized_order_dependent. Qed.
-Print Assumptions balance_ordering_against_commoditized_amount_order_free_refuted.
+(* BALANCE against a commoditized amount (value.cc is_less_than / is_greater_than).  The loop used to walk the hash table and
+   stop at the first entry that decides - `(1 EUR + 2 USD) < 1 EUR` was `false` when EUR was met first and the error
+   "different commodities" when USD was (finding F190; the statement below was `..._refuted` then).  Since /repo 55e6d28 the
+   walk is over sorted_amounts, the model follows (Amount.v bal_lt_scalar), and the statement holds in full: for ANY second
+   operand - a commoditized amount included - and on either side, the outcome (truth value, or error and which) is the same
+   for every Permutation of the table's entries.  `distinct_keys`: one entry per commodity, the invariant of the table. *)
+Theorem balance_ordering_against_commoditized_amount_order_free : forall b b' w,
+  distinct_keys b -> Permutation b b' ->
+  v_ltb (VBal b) w = v_ltb (VBal b') w /\ v_ltb w (VBal b) = v_ltb w (VBal b').
+Proof. exact v_ltb_balance_perm. Qed.
+Print Assumptions balance_ordering_against_commoditized_amount_order_free.
+
+(* the four ordering operators of the expression language are built from it (CompareProofs.v v_cmp, aeval_cmp_is_v_cmp) *)
+Theorem balance_ordering_operators_order_free' : forall o b b' w,
+  distinct_keys b -> Permutation b b' ->
+  v_cmp o (VBal b) w = v_cmp o (VBal b') w /\ v_cmp o w (VBal b) = v_cmp o w (VBal b').
+Proof. exact v_cmp_balance_perm. Qed.
+Print Assumptions balance_ordering_operators_order_free'.
+
+Theorem balance_greater_than_walk_order_free' : forall w b b',
+  distinct_keys b -> Permutation b b' -> bal_gt_scalar b w = bal_gt_scalar b' w.
+Proof. exact bal_gt_scalar_perm. Qed.
+Print Assumptions balance_greater_than_walk_order_free'.
+
+(* the former witness, both ways round *)
+Example former_witness_now_order_free :
+  let eur := mkAmt 1 0 false (Some [69; 85; 82]%Z) in
+  let usd := mkAmt 2 0 false (Some [85; 83; 68]%Z) in
+  v_ltb (VBal [eur; usd]) (VAmt eur) = Ok false /\ v_ltb (VBal [usd; eur]) (VAmt eur) = Ok false /\
+  v_ltb (VBal [eur; usd]) (VAmt usd) = Err EDiffComm /\ v_ltb (VBal [usd; eur]) (VAmt usd) = Err EDiffComm.
+Proof. vm_compute. repeat split; reflexivity. Qed.
+
+(* top_amount of a balance (report.cc; finding F191, repaired by /repo 195dbe5: `amounts.begin()` before): the first amount
+   in commodity order - the same for every order of the table, and the entry whose key is least *)
+Theorem top_amount_order_free : forall b b',
+  distinct_keys b -> Permutation b b' -> top_amount (VBal b) = top_amount (VBal b').
+Proof. exact top_amount_perm. Qed.
+Print Assumptions top_amount_order_free.
+
+Theorem top_amount_is_the_least_commodity : forall b x,
+  distinct_keys b -> top_amount (VBal b) = VAmt x -> In x b /\ forall y, In y b -> y = x \/ key_lt x y.
+Proof. exact top_amount_is_least. Qed.
+Print Assumptions top_amount_is_the_least_commodity.
+
+(* whatever a function computes from the sorted entries is order-free; the sites of the source that walk the sorted
+   entries (container "amounts_array" of Gen/OrderSites.v) are exactly the four named, all of class OTSorted; and the
+   repaired functions no longer iterate over the table itself *)
+Theorem sorted_walks_order_free : forall (A : Type) (g : list amount -> A) b b',
+  distinct_keys b -> Permutation b b' -> g (sorted_amounts b) = g (sorted_amounts b').
+Proof. exact sorted_walk_order_free. Qed.
+Print Assumptions sorted_walks_order_free.
+
+Theorem source_sorted_walks_are_the_named_ones :
+  filter is_sorted_walk order_sites = sorted_walk_sites.
+Proof. exact sorted_walks_are_exactly_these. Qed.
+Print Assumptions source_sorted_walks_are_the_named_ones.
+
+Theorem source_repaired_comparisons_do_not_walk_the_table :
+  forallb (fun s => negb (walks_table_in_a_repaired_function s)) order_sites = true.
+Proof. exact repaired_functions_do_not_walk_the_table. Qed.
+Print Assumptions source_repaired_comparisons_do_not_walk_the_table.
+
+(* sorted_amounts in the source is still the stable sort by compare_by_commodity (base symbol first) that Amount.v
+   transcribes (harness/translators/src_guards.py) *)
+Theorem sorted_walk_transcribes_current_source : forallb (fun b => b) src_guards_C19 = true.
+Proof. vm_compute. reflexivity. Qed.
+Print Assumptions sorted_walk_transcribes_current_source.
